@@ -16,7 +16,7 @@ import (
 )
 
 type capDesc struct {
-	Workload    string `json:"workload"` // capacity | lru-capacity
+	Workload    string `json:"workload"` // capacity | lru-capacity | capacity-storm (Shards = number of hot shards, Keys = stores per writer)
 	N           int    `json:"n"`
 	Seed        int64  `json:"seed"`
 	Size        int    `json:"size"`
@@ -42,6 +42,7 @@ type capResult struct {
 	Gets       int     `json:"gets"`
 	Hits       int     `json:"hits"`
 	Foreign    string  `json:"foreign,omitempty"`
+	Prefill    int     `json:"len_after_prefill,omitempty"`
 }
 
 func capKey(i int, d capDesc, c uint64) hkey {
@@ -173,8 +174,8 @@ func runCapacity(d capDesc) capResult {
 	go func() { wg.Wait(); close(done) }()
 	select {
 	case <-done:
-	case <-time.After(120 * time.Second):
-		rep.Inconclusive("watchdog: capacity case #%d (size %d) did not finish within 120 s", d.N, d.Size)
+	case <-time.After(600 * time.Second):
+		rep.Inconclusive("watchdog: capacity case #%d (size %d) did not finish within 600 s", d.N, d.Size)
 		rep.Finish()
 	}
 	stop.Store(true)
@@ -207,5 +208,105 @@ func runCapacity(d capDesc) capResult {
 	if s, ok := foreign.Load().(string); ok {
 		res.Foreign = s
 	}
+	return res
+}
+
+// runStorm: the store is first filled to the brim (every shard at its share),
+// then many writers store distinct NEW keys whose Sum() lands in a few shards
+// only, so that stores into the same full shard overlap all the time. Each
+// writer reads Len() right after each of its own stores, and samplers read it
+// flat out. Any decision about eviction that is not atomic with the insert
+// (check-then-act) shows up as Len() > bound.
+func runStorm(d capDesc) capResult {
+	res := capResult{Desc: d, Bound: capBound(d.Size)}
+	c := cache.New[hkey, val](cache.Opts{Size: d.Size, CleanerInterval: time.Duration(d.GCMicros) * time.Microsecond})
+	defer c.Close()
+	far := base.Add(time.Duration(now()) + time.Hour)
+	farNs := int64(far.Sub(base))
+	next := int32(0)
+	put := func(sum uint64) {
+		next++
+		c.Store(hkey{ID: next, S: sum}, val{ID: int64(next), Key: next, Exp: farNs}, far)
+	}
+	// prefill sequentially: 3x the bound over all residues fills every shard
+	for i := 0; i < 3*res.Bound; i++ {
+		put(uint64(i))
+	}
+	res.FinalLen = c.Len() // reported as "prefill" below
+	prefill := res.FinalLen
+	r0 := rand.New(rand.NewSource(d.Seed))
+	hot := make([]uint64, d.Shards) // here: number of hot shards
+	for i := range hot {
+		hot[i] = uint64(r0.Intn(64))
+	}
+
+	var stop atomic.Bool
+	var lenSamples, stored, storedAtExceed atomic.Int64
+	maxLens := make([]atomic.Int64, d.Goroutines+3)
+	see := func(n int, m *atomic.Int64) {
+		if int64(n) > m.Load() {
+			m.Store(int64(n))
+		}
+		if n > res.Bound {
+			storedAtExceed.CompareAndSwap(0, stored.Load()+1)
+		}
+	}
+	start := make(chan struct{})
+	var bg, wg sync.WaitGroup
+	for s := 0; s < 3; s++ {
+		bg.Add(1)
+		go func(m *atomic.Int64) {
+			defer bg.Done()
+			<-start
+			for !stop.Load() {
+				see(c.Len(), m)
+				lenSamples.Add(1)
+			}
+		}(&maxLens[d.Goroutines+s])
+	}
+	for g := 0; g < d.Goroutines; g++ {
+		wg.Add(1)
+		go func(g int) {
+			defer wg.Done()
+			r := rand.New(rand.NewSource(d.Seed*31 + int64(g)))
+			<-start
+			for i := 0; i < d.Keys; i++ {
+				id := int32(1<<24) + int32(g)<<16 + int32(i)
+				k := hkey{ID: id, S: hot[r.Intn(len(hot))] + 64*uint64(id)}
+				c.Store(k, val{ID: int64(id), Key: id, Exp: farNs}, far)
+				stored.Add(1)
+				see(c.Len(), &maxLens[g]) // the storing goroutine looks itself
+				lenSamples.Add(1)
+			}
+		}(g)
+	}
+	close(start)
+	done := make(chan struct{})
+	go func() { wg.Wait(); close(done) }()
+	select {
+	case <-done:
+	case <-time.After(600 * time.Second):
+		rep.Inconclusive("watchdog: storm case #%d (size %d) did not finish within 600 s", d.N, d.Size)
+		rep.Finish()
+	}
+	stop.Store(true)
+	bg.Wait()
+	res.FinalLen = c.Len()
+	if res.FinalLen > res.Bound {
+		storedAtExceed.CompareAndSwap(0, stored.Load())
+	}
+	res.MaxLen = res.FinalLen
+	for i := range maxLens {
+		if n := int(maxLens[i].Load()); n > res.MaxLen {
+			res.MaxLen = n
+		}
+	}
+	n := 0
+	_ = c.Range(func(hkey, val, time.Time) error { n++; return nil })
+	res.MaxRange = n
+	res.Ranges = 1
+	res.LenSamples = int(lenSamples.Load()) + 1
+	res.Stored = int(storedAtExceed.Load())
+	res.Prefill = prefill
 	return res
 }
